@@ -30,12 +30,31 @@ def _traced_functions():
     import cflib.crazyflie.syncCrazyflie as scm
     import cflib.crazyflie.param as pm
     import cflib.crazyflie.link_statistics as lsm
-    fs = [cfm._IncomingPacketHandler.run, cfm.Crazyflie._link_error_cb, cfm.Crazyflie.open_link,
-          cfm.Crazyflie.close_link, cfm.Crazyflie.send_packet, cfm.Crazyflie._check_for_initial_packet_cb,
-          scm.SyncCrazyflie.open_link, scm.SyncCrazyflie.close_link, scm.SyncCrazyflie._connected,
-          scm.SyncCrazyflie._disconnected, scm.SyncCrazyflie._connection_failed,
-          pm._ParamUpdater.run, pm._ParamUpdater.close, pm._ParamUpdater._new_packet_cb,
-          lsm.Latency.start, lsm.Latency.stop, lsm.Latency._ping_thread]
+    # the functions with unsynchronised check-then-act on shared attributes.  Named ones that exist are taken as they
+    # are; private helpers come and go with refactorings, so every *private* method of the classes involved (and of the
+    # private thread classes of these modules) is traced as well - the scheduling points follow the code.
+    import threading
+    names = [(cfm, '_IncomingPacketHandler.run'), (cfm, 'Crazyflie.open_link'), (cfm, 'Crazyflie.close_link'),
+             (cfm, 'Crazyflie.send_packet'), (scm, 'SyncCrazyflie.open_link'), (scm, 'SyncCrazyflie.close_link'),
+             (lsm, 'Latency.start'), (lsm, 'Latency.stop')]
+    fs = []
+    for mod, path in names:
+        o = mod
+        for part in path.split('.'):
+            o = getattr(o, part, None)
+            if o is None:
+                break
+        if o is not None:
+            fs.append(o)
+    own = {id(getattr(f, '__code__', None)) for f in fs}
+    classes = [getattr(cfm, 'Crazyflie', None), getattr(scm, 'SyncCrazyflie', None), getattr(lsm, 'Latency', None)]
+    for mod in (cfm, pm):
+        classes += [v for v in vars(mod).values() if isinstance(v, type) and issubclass(v, threading.Thread)
+                    and v.__module__ == mod.__name__ and v.__name__ != '_ExtendedTypeFetcher']
+    skip = ('__init__',)
+    for f in cfh.functions_of(*classes, skip=skip):
+        if id(f.__code__) not in own and (f.__name__.startswith('_') or f.__name__ in ('run', 'close')):
+            fs.append(f)
     return fs
 
 
@@ -73,7 +92,8 @@ def exec_c02(cfg, devs):
             return orig_add(cb, port, channel, port_mask, channel_mask)
         cf.incoming.add_header_callback = logged_add
         if cfg.get('retry'):
-            orig_err = cf._link_error_cb
+            orig_err = getattr(cf, '_link_error_cb', None)
+            info['errpath_seen'] = orig_err is not None
 
             def logged_err(errmsg):
                 me = vsched._v_current_thread_name()
@@ -82,7 +102,8 @@ def exec_c02(cfg, devs):
                     return orig_err(errmsg)
                 finally:
                     ex.log('errpath_end', me)
-            cf._link_error_cb = logged_err
+            if orig_err is not None:
+                cf._link_error_cb = logged_err
 
         def on_connected(uri):
             lg = cfh.toc_fingerprint(cf.log.toc) if cf.log.toc is not None else None
@@ -150,7 +171,7 @@ def exec_c02(cfg, devs):
             except Exception as e:  # noqa
                 ex.log('raise', 'scf.close_link', type(e).__name__ + ':' + str(e)[:60])
         s.sleep(2.5, 'settle')
-        info['state1'] = (cf.state, cf.link is None, cf.incoming.is_alive() if cf.incoming._started.is_set() or getattr(
+        info['state1'] = (cf.state, cf.link is None, cf.incoming.is_alive() if cf.incoming.ident is not None or getattr(
             cf.incoming, '_vf_vt', None) is not None else None)
         ex.log('session2')
         ex.freeze()
@@ -214,7 +235,14 @@ def _judge(p, cfg, devs, ex, info, dev):
         # the application retried at once: the grammar clauses are judged on the last attempt of session 1 (the earlier
         # one ended with the exception that made the application retry); liveness and session 2 are judged as always
         starts = [i for i, e in enumerate(ev1) if e[1] == 'cb' and e[2] == 'connection_requested']
-        if len(starts) > 1:
+        if len(starts) > 1 and not info.get('errpath_seen'):
+            # the error path cannot be observed (private name changed): which attempt a late notification belongs to is
+            # unknown, so only liveness and the second session are judged for this execution
+            ev1 = [e for e in ev1 if e[1] not in ('cb', 'disc_begin', 'fault')] + [
+                (0.0, 'cb', 'connection_requested', 'main')]
+            info.pop('tables', None)
+            info.pop('values', None)
+        elif len(starts) > 1:
             sp = starts[-1] - 1 if starts[-1] > 0 and ev1[starts[-1] - 1][1] == 'call' else starts[-1]
             # a thread still inside the error path of the failed attempt when the application retries keeps delivering
             # that attempt's notifications: they belong to the failed attempt, not to the new one
